@@ -159,17 +159,29 @@ Definition calc_metadata (preemptible : bool) (pods : list pod) : option pgmeta 
   add_pods {| m_preemptible := preemptible; m_alloc := []; m_req := [] |} pods.
 
 (** The preemptibility rule of getStatusWithMetadata, isolated.
-    [anp_rule_v0] is the code as it stands: AllocatedNonPreemptible is only
-    assigned when the group is non-preemptible and otherwise keeps the value of
-    the previous status.  [anp_rule_fixed] clears it. *)
+    [anp_rule_v0] is the code as it stood before /repo commit 5182ff3:
+    AllocatedNonPreemptible was only assigned when the group is
+    non-preemptible and otherwise kept the value of the previous status.
+    [anp_rule_fixed] is the code since 5182ff3:
+
+      if !metaData.Preemptible { AllocatedNonPreemptible = metaData.Allocated }
+      else if len(AllocatedNonPreemptible) > 0 { AllocatedNonPreemptible = nil }
+
+    The [len > 0] guard leaves an existing EMPTY map in place instead of
+    replacing it by nil; both are the vector [[]] here (absent key = 0, and the
+    JSON status round trip drops an empty map anyway), so the rule is
+    "preemptible -> []".  A previous value with only zero entries has
+    [len > 0] and becomes nil = [[]] as well. *)
 Definition anp_rule_v0 (preemptible : bool) (old_anp alloc : vec) : vec :=
   if preemptible then old_anp else alloc.
 
 Definition anp_rule_fixed (preemptible : bool) (old_anp alloc : vec) : vec :=
   if preemptible then [] else alloc.
 
-(** THE SWITCH: which rule the current tree implements. *)
-Definition anp_rule := anp_rule_v0.
+(** THE SWITCH: which rule the current tree implements (flipped to the
+    repaired rule with /repo commit 5182ff3; [anp_rule_v0] is kept for the
+    documented refutation and for the regression replay). *)
+Definition anp_rule := anp_rule_fixed.
 
 Definition status_with_metadata (rule : bool -> vec -> vec -> vec) (m : pgmeta) (old : rstatus) : rstatus :=
   {| s_alloc := m_alloc m;
